@@ -3,8 +3,19 @@
    property's oracle on the implementation's own observations. *)
 From Coq Require Import List ZArith Bool.
 From Arrai Require Import Sys.GoPath Sys.Import Sys.ImportCache.
+From Coq Require String Ascii.
+From Coq Require Import NArith.
 Import ListNotations.
 Open Scope Z_scope.
+
+(* printable-ASCII byte strings of the generated case files are written as Coq
+   string literals (much cheaper to elaborate than lists of numerals) *)
+Fixpoint str_of_string (s : String.string) : str :=
+  match s with
+  | String.EmptyString => []
+  | String.String c t => Z.of_N (Ascii.N_of_ascii c) :: str_of_string t
+  end.
+Notation S16 := str_of_string.
 
 Fixpoint strs_eqb (a b : list str) : bool :=
   match a, b with
